@@ -1053,6 +1053,9 @@ pub fn install_panic_hook() {
             "?".to_string()
         };
         let loc = info.location().map(|l| format!("{}:{}", l.file(), l.line())).unwrap_or_default();
+        if std::env::var("PPG_PANIC_VERBOSE").is_ok() {
+            eprintln!("panic: {} @ {}", msg, loc);
+        }
         LAST_PANIC.with(|p| *p.borrow_mut() = format!("{} @ {}", msg, loc));
     }));
 }
